@@ -869,6 +869,12 @@ def check_pool(chk, gene, cov, cands, labels, dbname, case, max_size=3):
                 if diff:
                     strip = lambda l: [{k: v for k, v in s.items() if k not in ("diplotype", "major_name", "minor_name")} for s in l]
                     kind = "refinement" if same(strip(alone[id(c)]), strip(res[id(c)]), tol=SCORE_RESOLUTION) else "diplotype-arrangement"
+                    if kind == "refinement":
+                        # the same number of refinements with the same scores (at aldy's resolution) but other sub-alleles / placements:
+                        # an exact tie of the minor objective broken by construction order, which follows the pooled list
+                        sa, sb = [x["score"] for x in alone[id(c)]], [x["score"] for x in res[id(c)]]
+                        if len(sa) == len(sb) and all(abs(u - v) <= SCORE_RESOLUTION for u, v in zip(sa, sb)):
+                            kind = "tie-refinement"
                     chk.fail("candidate-independent",
                              {"db": dbname, "structures": structures, "pool": "same" if pool_same else "different",
                               "last_has_own_structure": last_same, "difference": kind},
